@@ -21,7 +21,7 @@ VERIF = os.path.dirname(os.path.dirname(os.path.abspath(__file__)))
 RELEVANT = {
     "streamz/core.py": "C01,C02,C03,C04,C05,C08,C10,C13,C14,C15,C16,C19",
     "streamz/sources.py": "C17,C18,C09,C19",
-    "streamz/sinks.py": "C04,C15,C16,C01",
+    "streamz/sinks.py": "C05,C04,C15,C16,C01",
     "streamz/orderedweakset.py": "C01,C15",
     "streamz/dask.py": "C20",
     "streamz/collection.py": "C06,C07,C11,C12",
